@@ -53,9 +53,11 @@ def SAT_RES2 : Nat := 0x8000
 
 def isDirWord (v : Nat) : Bool := v == SAT_RES1 || v == SAT_RES2
 
+/-- decoder state. `dirty` (the visited flags) is an `Array` so that the driver can decode real
+11386-entry tables quickly; all reasoning goes through `dirty.toList`. -/
 structure AkaiSt where
   links   : List Link
-  dirty   : List Bool
+  dirty   : Array Bool
   prevDir : Bool
 deriving Repr
 
@@ -157,9 +159,9 @@ theorem akai_measure (d : List Bool) (size sub v : Nat) (hsub : sub < size)
 /-- The inner `while` of `_decode` for one starting sector. `lst` is kept in reverse.
 Returns `none` only for `InvalidFatDefinition` out of `add_to_sector_links` (cannot happen:
 every walked index is `< size`; kept so that the model does not silently drop the error path). -/
-def akaiWalk (words : List Nat) (st : AkaiSt) (lst : List Nat) (sub : Nat) :
+def akaiWalk (words : Array Nat) (st : AkaiSt) (lst : List Nat) (sub : Nat) :
     Except Err AkaiSt :=
-  let size := words.length
+  let size := words.size
   match hw : words[sub]? with
   | none => .ok st                                                  -- `subpath_index >= size`
   | some v =>
@@ -170,7 +172,7 @@ def akaiWalk (words : List Nat) (st : AkaiSt) (lst : List Nat) (sub : Nat) :
       | .error e => .error e
     else if v == SAT_FREE || (v < size && st.dirty[v]?.getD true) then
       -- (after the `fix:` of D1) a chain running into an already decoded chain keeps what was walked
-      let dirty' := st.dirty.set sub true
+      let dirty' := st.dirty.setIfInBounds sub true
       if v != SAT_FREE && !curDir then
         match addLinks (sub :: lst).reverse st.links with
         | .ok ls => .ok { links := ls.set sub ⟨v, false⟩, dirty := dirty', prevDir := false }
@@ -178,27 +180,29 @@ def akaiWalk (words : List Nat) (st : AkaiSt) (lst : List Nat) (sub : Nat) :
       else .ok { st with dirty := dirty', prevDir := false }
     else if v == SAT_EOF then
       match addLinks (sub :: lst).reverse st.links with
-      | .ok ls => .ok { links := ls, dirty := st.dirty.set sub true, prevDir := curDir }
+      | .ok ls => .ok { links := ls, dirty := st.dirty.setIfInBounds sub true, prevDir := curDir }
       | .error e => .error e
     else
-      let st' : AkaiSt := { st with dirty := st.dirty.set sub true, prevDir := curDir }
+      let st' : AkaiSt := { st with dirty := st.dirty.setIfInBounds sub true, prevDir := curDir }
       let next := if !curDir then v else sub + 1
       if next < size then akaiWalk words st' (sub :: lst) next
       else .ok st'                                                  -- next iteration breaks at once
-termination_by (phi st.dirty sub, words.length - sub)
+termination_by (phi st.dirty.toList sub, words.size - sub)
 decreasing_by
   simp_wf
   rename_i h3 h2 h1 hn
-  have hsub : sub < words.length := by
-    rcases Nat.lt_or_ge sub words.length with h' | h'
+  have hsub : sub < words.size := by
+    rcases Nat.lt_or_ge sub words.size with h' | h'
     · exact h'
-    · rw [List.getElem?_eq_none h'] at hw; cases hw
-  apply akai_measure st.dirty words.length sub v hsub (isDirWord v)
+    · rw [Array.getElem?_eq_none h'] at hw; cases hw
+  apply akai_measure st.dirty.toList words.size sub v hsub (isDirWord v)
   · intro hdir
-    have hvlt : v < words.length := by
+    have hvlt : v < words.size := by
       simp only [next, curDir, hdir] at hn; simpa using hn
     simp only [size, Bool.or_eq_true, Bool.and_eq_true, decide_eq_true_eq, not_or, not_and] at h2
     have := h2.2 hvlt
+    have hconv : st.dirty.toList[v]? = st.dirty[v]? := by simp
+    rw [hconv]
     cases hd : st.dirty[v]? with
     | none => simp [hd] at this
     | some b => cases b with
@@ -209,10 +213,11 @@ decreasing_by
 /-- `SegmentAllocationTableAdapter._decode`: the outer `for i in range(size)`. -/
 def akaiDecodeSt (words : List Nat) : Except Err AkaiSt :=
   let n := words.length
+  let wa := words.toArray
   let st0 : AkaiSt :=
-    { links := List.replicate n Link.dflt, dirty := List.replicate n false, prevDir := true }
+    { links := List.replicate n Link.dflt, dirty := Array.replicate n false, prevDir := true }
   (List.range n).foldlM
-    (fun st i => if st.dirty[i]?.getD true then pure st else akaiWalk words st [] i) st0
+    (fun st i => if st.dirty[i]?.getD true then pure st else akaiWalk wa st [] i) st0
 
 def akaiDecode (words : List Nat) : Except Err (List Link) :=
   (akaiDecodeSt words).map (·.links)
@@ -226,18 +231,18 @@ def FAT_END : Nat := 0xfff8
 
 structure RolSt where
   links : List Link
-  dirty : List Bool
+  dirty : Array Bool
 deriving Repr
 
 /-- inner `while True` of `FatAreaAdapter._decode`, with the loop guard of the `fix:` of D7:
 a walk that appends more than `n` entries is a cycle and raises `ConstructError`.
 `fuel` = number of appends still allowed (starts at `n + 1`). -/
-def rolandWalk (words : List Nat) : Nat → RolSt → List Nat → Nat → Except Err RolSt
+def rolandWalk (words : Array Nat) : Nat → RolSt → List Nat → Nat → Except Err RolSt
   | fuel, st, lst, sub =>
     match words[sub]? with
     | none => .ok st                                              -- `subpath_index >= FAT_NUM_ENTRIES`
     | some v =>
-      let st1 : RolSt := { st with dirty := st.dirty.set sub true }
+      let st1 : RolSt := { st with dirty := st.dirty.setIfInBounds sub true }
       if v == FAT_ERROR then .error .construct
       else if v == FAT_RESERVED || v == FAT_FREE then
         if lst.isEmpty then .ok st1 else .error .construct
@@ -254,11 +259,12 @@ def rolandWalk (words : List Nat) : Nat → RolSt → List Nat → Nat → Excep
 /-- the link part of `FatAreaAdapter._decode` for a table of `n = words.length` entries. -/
 def rolandDecode (words : List Nat) : Except Err (List Link) :=
   let n := words.length
+  let wa := words.toArray
   let st0 : RolSt :=
     { links := List.replicate n Link.dflt,
-      dirty := (List.replicate n false).set 0 true |>.set 1 true }
+      dirty := (Array.replicate n false).setIfInBounds 0 true |>.setIfInBounds 1 true }
   ((List.range (n - 9)).drop 2).foldlM
-    (fun st i => if st.dirty[i]?.getD true then pure st else rolandWalk words n st [] i) st0
+    (fun st i => if st.dirty[i]?.getD true then pure st else rolandWalk wa n st [] i) st0
   |>.map (·.links)
 
 end Smpl.Alloc
